@@ -118,7 +118,7 @@ def judge_body(facts, b, pre):
         goals = []
         for (l, proj) in bases.values():
             # only handles actually stored to on this path
-            if not any(b.blocks[bb]["stmts"] and any(s["k"] == "assign" and s["pl"]["l"] == l and s["pl"]["p"][:-1] == proj and isinstance(s["pl"]["p"][-1], dict)
+            if not any(b.blocks[bb]["stmts"] and any(s["k"] == "assign" and s["pl"]["l"] == l and s["pl"]["p"] and s["pl"]["p"][:-1] == proj and isinstance(s["pl"]["p"][-1], dict)
                                                    and s["pl"]["p"][-1].get("n") in ("len", "cap") for s in b.blocks[bb]["stmts"]) for bb in path):
                 continue
             f = lambda nm: canon(sp.place({"l": l, "p": list(proj) + [{"f": FIELD_IDX[nm], "n": nm, "adt": HANDLE}]}, end))
